@@ -360,6 +360,11 @@ func (fr *frame) applyContract(ct *Contract, key string, sig *types.Signature, a
 			vc.ghostSet(st, g, "(+ "+vc.ghostGet(old, g)+" 1)")
 		}
 	}
+	for _, sd := range ct.Sets {
+		if _, ok := vc.eng.specs.ghostSort[sd.Name]; ok {
+			vc.ghostSet(st, sd.Name, te.withState(old).term(sd.E).t)
+		}
+	}
 	if !ct.HasModifies && ct.Trusted {
 		// trusted contracts without a modifies clause are pure
 	}
